@@ -86,6 +86,22 @@ DecodeSubstFirst(s, qcol) == Strip(Subst(s), qcol)       \* the other reading of
 DecodeDQ(s, qcol) == DecodeStripFirst(s, qcol)
 JudgedDQ(s, qcol) == ~OtherEscFrom(s, 1) /\ ~LoneCR(s) /\ DecodeStripFirst(s, qcol) = DecodeSubstFirst(s, qcol)
 
+\* ---- unquoted strings.  RFC 6020 6.1.3: "An unquoted string is any sequence of characters that does not contain any space,
+\* tab, carriage return, or line feed characters, a semicolon, braces, or comment sequences" - and it stands for itself.  Every
+\* other character is an ordinary character of it: all other ASCII punctuation, including a single or a double quote after
+\* the first character, a plus, a backslash, a lone slash or star, and every character beyond ASCII.  Not judged (the text is
+\* then no unquoted string, or RFC 6020 does not say): a string that starts with a quote, and one that contains a separator,
+\* ; { } or // /* */.
+HasCh(v, c) == \E i \in 1..Len(v) : v[i] = c
+HasPair(v, a, b) == \E i \in 1..(Len(v) - 1) : v[i] = a /\ v[i + 1] = b
+UnqJudged(v) == /\ Len(v) > 0 /\ v[1] \notin {DQ, SQ}
+                /\ \A i \in 1..Len(v) : ~IsSep(v[i]) /\ v[i] \notin {SEMI, LBR, RBR}
+                /\ ~HasPair(v, SLASH, SLASH) /\ ~HasPair(v, SLASH, STAR) /\ ~HasPair(v, STAR, SLASH)
+\* a double-quoted source form of a value: the characters that mean something inside double quotes are escaped
+RECURSIVE EscDQ(_, _)
+EscDQ(v, i) == IF i > Len(v) THEN << >>
+               ELSE (IF v[i] = DQ THEN <<BSL, DQ>> ELSE IF v[i] = BSL THEN <<BSL, BSL>> ELSE IF v[i] = LF THEN <<BSL, 110>> ELSE <<v[i]>>) \o EscDQ(v, i + 1)
+
 \* ---- an argument in its source form: pieces [q, src] (q: "u" unquoted, "s" single, "d" double
 \*      quoted) joined by joins[k] (trivia + trivia); `before` is the text up to the first piece ----
 RECURSIVE RenderFrom(_, _, _, _, _, _)
@@ -93,7 +109,7 @@ RenderFrom(text, value, judged, pieces, joins, k) ==
   IF k > Len(pieces) THEN [text |-> text, value |-> value, judged |-> judged]
   ELSE LET t0 == IF k > 1 THEN text \o joins[k - 1] ELSE text
            p == pieces[k]
-       IN IF p.q = "u" THEN RenderFrom(t0 \o p.src, value \o p.src, judged, pieces, joins, k + 1)
+       IN IF p.q = "u" THEN RenderFrom(t0 \o p.src, value \o p.src, judged /\ UnqJudged(p.src), pieces, joins, k + 1)
           ELSE IF p.q = "s" THEN RenderFrom(t0 \o <<SQ>> \o p.src \o <<SQ>>, value \o p.src, judged, pieces, joins, k + 1)
           ELSE LET t1 == Append(t0, DQ)  qc == QuoteCol(t1) IN
                RenderFrom(t1 \o p.src \o <<DQ>>, value \o DecodeDQ(p.src, qc),
